@@ -11,7 +11,11 @@ package circl_test
 
 import (
 	"bytes"
+	"crypto/sha256"
+	"crypto/sha512"
 	"fmt"
+	"io"
+	"sync"
 	"testing"
 
 	"github.com/cloudflare/circl/dh/x25519"
@@ -24,6 +28,7 @@ import (
 	"github.com/cloudflare/circl/kem/hybrid"
 	"github.com/cloudflare/circl/kem/mlkem/mlkem768"
 	"github.com/cloudflare/circl/kem/xwing"
+	"golang.org/x/crypto/hkdf"
 	"golang.org/x/crypto/sha3"
 )
 
@@ -56,6 +61,9 @@ type c06Op struct {
 	// when the X part of the produced secret is visible, that part.
 	run func(u []byte) (xpart []byte, err error)
 	skx []byte // X private scalar used by the operation ("" when derived inside)
+	// derive, when set, maps the RFC 7748 value (and u) to the secret the
+	// operation must return (run then returns the whole secret as xpart).
+	derive func(dh, u []byte) []byte
 }
 
 type c06Res struct {
@@ -63,6 +71,7 @@ type c06Res struct {
 	lib      []byte
 	err      error
 	xpart    []byte
+	ref      []byte
 	panicked string
 }
 
@@ -72,14 +81,90 @@ func c06Splice(base []byte, off int, u []byte) []byte {
 	return c
 }
 
-// c06RunOps enumerates ops x peers and judges "false flag => error".
+// c06Targets caches the prime-order output targets per curve (see verifc06/construct.go).
+var (
+	c06TargetsMu sync.Mutex
+	c06TargetsBy = map[int][]verifc06.Target{}
+)
+
+var (
+	c06ConsMu sync.Mutex
+	c06ConsBy = map[string][]verifc06.Constructed{}
+	c06RefMu  sync.Mutex
+	c06RefBy  = map[string][]byte{}
+)
+
+// c06Ref memoises the reference within the process (several operations share a scalar).
+func c06Ref(pp *verifc06.Params, k, u []byte) []byte {
+	key := string(k) + string(u)
+	c06RefMu.Lock()
+	v, ok := c06RefBy[key]
+	c06RefMu.Unlock()
+	if ok {
+		return v
+	}
+	v = pp.C.X(k, u)
+	c06RefMu.Lock()
+	c06RefBy[key] = v
+	c06RefMu.Unlock()
+	return v
+}
+
+func c06Targets(n int, thorough bool) []verifc06.Target {
+	c06TargetsMu.Lock()
+	defer c06TargetsMu.Unlock()
+	if t, ok := c06TargetsBy[n]; ok {
+		return t
+	}
+	t := c06Params(n).Targets(thorough)
+	c06TargetsBy[n] = t
+	return t
+}
+
+// c06PeersFor: the core peers, plus - when the operation's X scalar is known -
+// peers constructed so that X(skx, u) is a prescribed small output (one that has
+// a non-canonical alias v+p) or an output just below p.
+func c06PeersFor(r *verifmc.Run, n int, skx []byte) (peers []verifc06.Named, constructed map[string][]byte) {
+	pp := c06Params(n)
+	peers = pp.PeersCore(r.Seed())
+	constructed = map[string][]byte{}
+	if skx != nil {
+		c06ConsMu.Lock()
+		cs, ok := c06ConsBy[string(skx)]
+		if !ok {
+			// narrow targets only (wide ones are driven through Shared directly)
+			cs = pp.ConstructedPeers([]verifc06.Named{{Name: "sk", B: skx}}, c06Targets(n, r.Thorough()), 0)
+			c06ConsBy[string(skx)] = cs
+		}
+		c06ConsMu.Unlock()
+		for _, c := range cs {
+			peers = append(peers, c.U)
+			constructed[c.U.Name] = c.Want
+		}
+	}
+	return peers, constructed
+}
+
+// c06RunOps enumerates ops x peers and judges "false flag => error" and, where
+// the secret is visible, "secret = (function of) the RFC 7748 value".
 func c06RunOps(r *verifmc.Run, n int, ops []c06Op) {
 	pp := c06Params(n)
-	peers := pp.PeersCore(r.Seed())
 	probe := verifmc.Shake("c06-callers-probe-scalar", n)
-	res := make([]c06Res, len(ops)*len(peers))
+	type ccase struct {
+		op   *c06Op
+		u    verifc06.Named
+		cons []byte // prescribed output for constructed peers
+	}
+	var cases []ccase
+	for i := range ops {
+		peers, cons := c06PeersFor(r, n, ops[i].skx)
+		for _, u := range peers {
+			cases = append(cases, ccase{&ops[i], u, cons[u.Name]})
+		}
+	}
+	res := make([]c06Res, len(cases))
 	verifmc.ParallelFor(len(res), func(j int) {
-		op, u := &ops[j/len(peers)], peers[j%len(peers)]
+		op, u := cases[j].op, cases[j].u
 		id := "callers/" + op.entry + "/u=" + u.Name
 		if !r.Want(id) {
 			return
@@ -97,18 +182,30 @@ func c06RunOps(r *verifmc.Run, n int, ops []c06Op) {
 		if x.lib == nil {
 			x.lib = []byte{}
 		}
+		if op.skx != nil {
+			x.ref = c06Ref(pp, op.skx, u.B)
+		}
 	})
 	for j := range res {
 		x := &res[j]
 		if x.lib == nil {
 			continue
 		}
-		op, u := &ops[j/len(peers)], peers[j%len(peers)]
+		op, u := cases[j].op, cases[j].u
 		id := "callers/" + op.entry + "/u=" + u.Name
 		cl := pp.ClassifyU(u.B).String()
+		if x.ref != nil && !xladder.IsZero(x.ref) && pp.InWindow(x.ref) {
+			cl += ",out=has-noncanonical-alias"
+		}
 		rp := map[string]string{"u": verifmc.FullHex(u.B), "entry": op.entry}
 		r.Eval(1)
 		r.Distinct(op.entry, u.B)
+		if cases[j].cons != nil {
+			r.Count("constructed_cases", 1)
+			if !bytes.Equal(cases[j].cons, x.ref) {
+				r.Vacuous("constructed peer " + id + " does not give the prescribed output under the reference")
+			}
+		}
 		if x.panicked != "" {
 			r.Violation("C06|"+op.entry+"|panic-"+verifmc.PanicClass(x.panicked)+"|u="+cl, id, "panic: "+x.panicked, rp)
 			continue
@@ -131,18 +228,50 @@ func c06RunOps(r *verifmc.Run, n int, ops []c06Op) {
 			continue
 		}
 		r.Outcome("flag=true,err=nil")
-		if x.xpart != nil && op.skx != nil {
-			want := pp.C.X(op.skx, u.B)
+		if x.xpart != nil && x.ref != nil {
+			want := x.ref
+			what := "X part of the secret"
+			if op.derive != nil {
+				want = op.derive(x.ref, u.B)
+				what = "secret"
+			}
 			r.Count("secret_compared_with_reference", 1)
+			if !xladder.IsZero(x.ref) && pp.InWindow(x.ref) {
+				r.Count("secret_compared_output_has_noncanonical_alias", 1)
+			}
 			if !bytes.Equal(x.xpart, want) {
 				r.Violation("C06|"+op.entry+"|secret-differs-from-rfc7748|u="+cl, id,
-					fmt.Sprintf("%s: X part of the secret %x, RFC 7748 gives %x", op.entry, x.xpart, want), rp)
+					fmt.Sprintf("%s: %s %x, with the RFC 7748 value %x it must be %x", op.entry, what, x.xpart, x.ref, want), rp)
 			}
 		}
 		if j%(len(res)/4+1) == 0 {
 			r.Sample(map[string]interface{}{"case": id, "u": verifmc.FullHex(u.B), "err": fmt.Sprint(x.err)})
 		}
 	}
+}
+
+// c06DHKEMSecret is RFC 9180 section 4.1 ExtractAndExpand(dh, kem_context) for
+// DHKEM(X25519, HKDF-SHA256) (id 0x0020) / DHKEM(X448, HKDF-SHA512) (id 0x0021).
+func c06DHKEMSecret(n int, dh, kemContext []byte) []byte {
+	h, id, nsecret := sha256.New, uint16(0x0020), 32
+	if n == 56 {
+		h, id, nsecret = sha512.New, uint16(0x0021), 64
+	}
+	suite := []byte{'K', 'E', 'M', byte(id >> 8), byte(id)}
+	cat := func(p ...[]byte) []byte {
+		var o []byte
+		for _, x := range p {
+			o = append(o, x...)
+		}
+		return o
+	}
+	prk := hkdf.Extract(h, cat([]byte("HPKE-v1"), suite, []byte("eae_prk"), dh), nil)
+	info := cat([]byte{byte(nsecret >> 8), byte(nsecret)}, []byte("HPKE-v1"), suite, []byte("shared_secret"), kemContext)
+	out := make([]byte, nsecret)
+	if _, err := io.ReadFull(hkdf.Expand(h, prk, info), out); err != nil {
+		panic(err)
+	}
+	return out
 }
 
 type c06HybridSpec struct {
@@ -218,6 +347,7 @@ func TestVerifC06_callers_hybrid(t *testing.T) {
 	r.RequireCounter("flagged_cases", 100)
 	r.RequireCounter("unflagged_cases", 500)
 	r.RequireCounter("secret_compared_with_reference", 300)
+	r.RequireCounter("secret_compared_output_has_noncanonical_alias", 50)
 }
 
 func TestVerifC06_callers_hpke(t *testing.T) {
@@ -240,6 +370,7 @@ func TestVerifC06_callers_hpke(t *testing.T) {
 		pkR, skR := sch.DeriveKeyPair(verifmc.Shake("c06-hpke-keyR-"+name, sch.SeedSize()))
 		pkS, skS := sch.DeriveKeyPair(verifmc.Shake("c06-hpke-keyS-"+name, sch.SeedSize()))
 		skRb, _ := skR.MarshalBinary()
+		pkRb, _ := pkR.MarshalBinary()
 		skSb, _ := skS.MarshalBinary()
 		eseed := verifmc.Shake("c06-hpke-eseed-"+name, sch.EncapsulationSeedSize())
 		enc0, ss0, err := sch.EncapsulateDeterministically(pkR, eseed)
@@ -259,8 +390,9 @@ func TestVerifC06_callers_hpke(t *testing.T) {
 		asPK := func(u []byte) (kem.PublicKey, error) { return sch.UnmarshalBinaryPublicKey(u) }
 		ops := []c06Op{
 			{entry: "hpke." + name + ".Decapsulate", skx: skRb, run: func(u []byte) ([]byte, error) {
-				_, err := sch.Decapsulate(skR, u)
-				return nil, err
+				return sch.Decapsulate(skR, u)
+			}, derive: func(dh, u []byte) []byte {
+				return c06DHKEMSecret(n, dh, append(append([]byte{}, u...), pkRb...))
 			}},
 			{entry: "hpke." + name + ".EncapsulateDeterministically", run: func(u []byte) ([]byte, error) {
 				pk, err := asPK(u)
@@ -355,6 +487,8 @@ func TestVerifC06_callers_hpke(t *testing.T) {
 	r.Rule("distinct (entry point, peer bytes): every u of the core peer alphabet as encapsulated key / receiver public key / sender public key of DHKEM(X25519), DHKEM(X448) (KEM API, auth variants, Sender/Receiver Setup) and of the X25519+Kyber768 HPKE hybrid; oracle: flag false (from the real Shared) => error")
 	r.RequireCounter("flagged_cases", 150)
 	r.RequireCounter("unflagged_cases", 1000)
+	r.RequireCounter("secret_compared_with_reference", 150)
+	r.RequireCounter("secret_compared_output_has_noncanonical_alias", 20)
 }
 
 // c06XWingCombiner is SHA3-256(ss_M || ss_X || ct_X || pk_X || XWingLabel) of
@@ -400,6 +534,18 @@ func TestVerifC06_callers_xwing(t *testing.T) {
 	hsch := hpke.KEM_XWING.Scheme()
 	gsch := xwing.Scheme()
 	peers := pp.PeersCore(r.Seed())
+	// peers constructed so that X25519(sk_X, u) resp. X25519(ek_X, u) is a small value (< 19: it
+	// has the non-canonical alias v+p) or a value just below p
+	for _, cc := range pp.ConstructedPeers([]verifc06.Named{{Name: "skx", B: skx}, {Name: "ekx", B: ekx}}, c06Targets(32, r.Thorough()), 2) {
+		peers = append(peers, cc.U)
+		if !bytes.Equal(c.X(skx, cc.U.B), cc.Want) && !bytes.Equal(c.X(ekx, cc.U.B), cc.Want) {
+			t.Fatalf("harness: constructed peer %s does not give the prescribed output", cc.U.Name)
+		}
+		r.Count("constructed_cases", 1)
+		if pp.InWindow(cc.Want) {
+			r.Count("constructed_output_has_noncanonical_alias", 1)
+		}
+	}
 	type xr struct {
 		ran                    bool
 		flag                   bool
@@ -498,4 +644,5 @@ func TestVerifC06_callers_xwing(t *testing.T) {
 	r.Rule("every u of the X25519 core peer alphabet spliced into an honest X-Wing ciphertext (Decapsulate: package function, kem.Scheme, HPKE KEM_XWING) and public key (Encapsulate); oracle: never an error, secret = SHA3-256(ss_M || RFC7748 X25519 || ct_X || pk_X || label) with ss_M taken from circl's ML-KEM-768")
 	r.RequireCounter("flagged_cases", 10)
 	r.RequireCounter("unflagged_cases", 50)
+	r.RequireCounter("constructed_output_has_noncanonical_alias", 4)
 }
